@@ -1,0 +1,135 @@
+//! Verification hooks, only compiled with the `verif` cargo feature.
+//!
+//! Everything in here is add-only instrumentation used by an external model-checking
+//! harness: a replaceable clock, a seam in front of the blocking wait, scheduling
+//! points for a controlled scheduler, and read-only accessors for loop statistics and
+//! poller keys. With no hooks installed every function is the identity, and with the
+//! feature disabled none of this exists.
+#![allow(missing_docs, missing_debug_implementations)]
+
+use std::sync::{Arc, RwLock};
+use std::time::Duration;
+
+use crate::token::TokenInner;
+
+/// Callbacks a verification harness can install. Every method defaults to the identity.
+pub trait Hooks: Send + Sync {
+    /// Replace the clock read by timers and by the poll timeout computation.
+    fn now(&self) -> Option<std::time::Instant> {
+        None
+    }
+    /// Called with the effective timeout right before the poller wait; returns the
+    /// timeout the poller is really asked for.
+    fn before_wait(&self, _poller_fd: i32, timeout: Option<Duration>) -> Option<Duration> {
+        timeout
+    }
+    /// Called right after the poller wait returned.
+    fn after_wait(&self) {}
+    /// A scheduling point before a cross-thread visible step.
+    fn point(&self, _label: &'static str) {}
+    /// Override a per-dispatch batch limit.
+    fn batch_limit(&self, _which: &'static str, default: usize) -> usize {
+        default
+    }
+}
+
+static HOOKS: RwLock<Option<Arc<dyn Hooks>>> = RwLock::new(None);
+
+/// Install (or with `None`, remove) the process-wide hooks.
+pub fn install(hooks: Option<Arc<dyn Hooks>>) {
+    *HOOKS.write().unwrap_or_else(|e| e.into_inner()) = hooks;
+}
+
+fn current() -> Option<Arc<dyn Hooks>> {
+    HOOKS.read().unwrap_or_else(|e| e.into_inner()).clone()
+}
+
+/// Stand-in for `std::time::Instant` in the few function bodies that read the clock:
+/// `Instant::now()` there resolves to this function, which still returns a std instant.
+pub struct Instant;
+
+impl Instant {
+    #[allow(clippy::new_ret_no_self)]
+    pub fn now() -> std::time::Instant {
+        current()
+            .and_then(|h| h.now())
+            .unwrap_or_else(std::time::Instant::now)
+    }
+}
+
+pub(crate) fn before_wait(poller: &polling::Poller, timeout: Option<Duration>) -> Option<Duration> {
+    use std::os::unix::io::AsRawFd;
+    match current() {
+        Some(h) => h.before_wait(poller.as_raw_fd(), timeout),
+        None => timeout,
+    }
+}
+
+pub(crate) fn after_wait() {
+    if let Some(h) = current() {
+        h.after_wait()
+    }
+}
+
+pub(crate) fn point(label: &'static str) {
+    if let Some(h) = current() {
+        h.point(label)
+    }
+}
+
+pub(crate) fn batch_limit(which: &'static str, default: usize) -> usize {
+    match current() {
+        Some(h) => h.batch_limit(which, default),
+        None => default,
+    }
+}
+
+/// Read-only snapshot of the bookkeeping of a loop.
+#[derive(Clone, Debug, PartialEq, Eq)]
+pub struct Stats {
+    /// One entry per slot: (raw key of the slot token, occupied, strong count of the dispatcher).
+    pub slots: Vec<(usize, bool, usize)>,
+    /// Raw keys in the additional-lifecycle-events set, in order.
+    pub lifecycle: Vec<usize>,
+    /// Timer heap entries: (deadline, raw key of the token, counter), unordered.
+    pub timers: Vec<(std::time::Instant, usize, u32)>,
+    /// Number of pending idle callbacks.
+    pub idles: usize,
+    /// The deferred post-action cell.
+    pub pending_action: crate::PostAction,
+}
+
+/// Raw poller key of a `Token`.
+pub fn token_key(token: &crate::Token) -> usize {
+    token.inner.into()
+}
+
+/// Raw poller key of a `RegistrationToken`.
+pub fn registration_key(token: &crate::RegistrationToken) -> usize {
+    token.verif_key()
+}
+
+/// Decode a raw key into (slot id, generation, sub-id) with the real conversion.
+pub fn key_to_fields(key: usize) -> (u32, u16, u16) {
+    TokenInner::from(key).verif_fields()
+}
+
+/// Encode (slot id, generation, sub-id) into a raw key with the real conversion.
+pub fn fields_to_key(id: u32, version: u16, sub_id: u16) -> usize {
+    TokenInner::verif_from_fields(id, version, sub_id).into()
+}
+
+/// The key of the same slot after one reuse (generation bump).
+pub fn bump_generation(key: usize) -> usize {
+    TokenInner::from(key).increment_version().into()
+}
+
+/// The key a brand new slot with this index gets, or `None` if the index is rejected.
+pub fn new_slot_key(id: usize) -> Option<usize> {
+    TokenInner::new(id).ok().map(Into::into)
+}
+
+/// A token factory for the slot/generation of the given raw key.
+pub fn token_factory(key: usize) -> crate::TokenFactory {
+    crate::TokenFactory::new(TokenInner::from(key))
+}
